@@ -1,10 +1,11 @@
 #!/bin/bash
 # tools/seedconfirm.sh <Cxx> <n> : confirm a seeded change delivered under /tmp/seed/<Cxx>/SEEDED/<n>
 # in the scratch worktree (suite passes with the change; demo fails with it and passes without),
-# then store it as /verif/seeded/<Cxx>-<n>/.
+# then store it as /verif/seeded/<Cxx>-<n>/. SEEDROOT=/tmp/seed2 SEEDOFF=2 for the second (blind) round.
 set -u
 P=$1; N=$2
-WT=/tmp/seed/$P
+ROOT=${SEEDROOT:-/tmp/seed}; OFF=${SEEDOFF:-0}
+WT=$ROOT/$P
 S=$WT/SEEDED/$N
 export GOFLAGS=-mod=mod GOPROXY=off GOSUMDB=off
 cd $WT || exit 2
@@ -21,9 +22,9 @@ if echo "$out" | grep -q "^ok"; then A=pass; else A=fail; fi
 # 2. with the change
 git apply $S/patch.diff || { echo "PATCH DOES NOT APPLY" | tee -a $LOG; exit 1; }
 b=$(go build ./... 2>&1 | grep -v "^go: downloading" | tail -5); echo "--- build with change: ${b:-ok}" >> $LOG
-[ -d SEEDED ] && mv SEEDED /tmp/seed/.SEEDED_$P
+[ -d SEEDED ] && mv SEEDED $ROOT/.SEEDED_$P
 suite=$(go test -vet=off -count=1 ./... 2>&1 | grep -v "no test files" | tail -20)
-[ -d /tmp/seed/.SEEDED_$P ] && mv /tmp/seed/.SEEDED_$P SEEDED
+[ -d $ROOT/.SEEDED_$P ] && mv $ROOT/.SEEDED_$P SEEDED
 echo "--- suite with change:" >> $LOG; echo "$suite" >> $LOG
 if echo "$suite" | grep -q "FAIL"; then B=fail; else B=pass; fi
 out=$(rundemo); echo "--- demo with change:" >> $LOG; echo "$out" >> $LOG
@@ -31,7 +32,7 @@ if echo "$out" | grep -q "FAIL\|panic"; then C=fail; else C=pass; fi
 git checkout -q -- .
 echo "RESULT $P-$N unchanged-demo=$A suite-with-change=$B demo-with-change=$C" | tee -a $LOG
 if [ $A = pass ] && [ $B = pass ] && [ $C = fail ] && [ -z "$b" ]; then
-  D=/verif/seeded/$P-$N; mkdir -p $D
+  D=/verif/seeded/$P-$((N+OFF)); mkdir -p $D
   cp $S/patch.diff $D/; cp $DEMO $D/; cp $S/confirm.log $D/
   python3 - <<PY
 import json
